@@ -319,6 +319,8 @@ pub struct AliasCase {
 /// structural check of one vector: error spec, weights() reconstruction. Returns (symptom, message).
 /// C04 judges only the constructor outcome (weights() is C08's clause)
 pub static SKIP_WEIGHTS_RECONSTRUCTION: std::sync::atomic::AtomicBool = std::sync::atomic::AtomicBool::new(false);
+/// max over the run of |weights()[i] - w_i| / tolerance for float tables (bits of an f64)
+pub static FLOAT_RECON_MAX: std::sync::atomic::AtomicU64 = std::sync::atomic::AtomicU64::new(0);
 
 pub fn alias_structural<W: Wt>(ws: &[M]) -> Option<(String, String)> {
     let input: Vec<W> = ws.iter().map(|&m| W::from_m(m)).collect();
@@ -360,9 +362,26 @@ pub fn alias_structural<W: Wt>(ws: &[M]) -> Option<(String, String)> {
                 }
             } else {
                 let sum: f64 = ws.iter().map(|m| m.f()).sum();
-                let tol = 4.0 * ws.len() as f64 * W::feps() * sum;
+                // "agrees to rounding error", as a sound bound for the documented construction: a column is the
+                // target of up to n subtractions at magnitude n*w_i (error n/2 eps w_i after the final division by
+                // n) and every aliased share (weight_sum - odds) carries the error of the pairwise sum,
+                // (log2 n)/2 eps sum in the worst case, up to n times, divided by n. Tolerance = twice that.
+                // (The largest error/tolerance seen on a run is written to the evidence.)
+                let lg = 1.0 + (ws.len().max(1) as f64).log2();
                 for (i, (b, w)) in back.iter().zip(ws.iter()).enumerate() {
                     let bf = b.to_m().f();
+                    let tol = 2.0 * W::feps() * (ws.len() as f64 * w.f().abs() + lg * sum);
+                    if tol > 0.0 && bf.is_finite() {
+                        // largest error / tolerance seen on this run (evidence: how much margin the rule leaves)
+                        let ratio = (bf - w.f()).abs() / tol;
+                        let mut cur = FLOAT_RECON_MAX.load(Ordering::Relaxed);
+                        while ratio > f64::from_bits(cur) {
+                            match FLOAT_RECON_MAX.compare_exchange(cur, ratio.to_bits(), Ordering::Relaxed, Ordering::Relaxed) {
+                                Ok(_) => break,
+                                Err(c) => cur = c,
+                            }
+                        }
+                    }
                     if !((bf - w.f()).abs() <= tol) {
                         return Some(("weights_reconstruction".into(), format!("WeightedAliasIndex<{}>: weights()[{}] = {:e} vs input {:e} (tol {:e}) for {}", W::NAME, i, bf, w.f(), tol, show(ws))));
                     }
@@ -901,6 +920,7 @@ pub fn run_c08(ctx: &Ctx) {
     alias_exact_pairs::<i32>(ctx, 32);
     alias_exact_pairs::<u64>(ctx, 64);
     alias_exact_pairs::<i64>(ctx, 64);
+    ctx.set_extra("float_reconstruction_max_error_over_tolerance", json!(f64::from_bits(FLOAT_RECON_MAX.load(Ordering::Relaxed))));
 }
 
 // ------------------------------------------------------------------------------------------------
